@@ -121,8 +121,9 @@ def hygiene_scan():
     return hits
 
 
-def static_check(pid, tier, deps_artefacts=None, props_module=None, props_path=None):
-    """translator + lake build of the property's theorem file + axiom audit"""
+def static_check(pid, tier, deps_artefacts=None, props_module=None, props_path=None, extra_props=()):
+    """translator + lake build of the property's theorem file(s) + axiom audit; extra_props = [(module, path under lean/)]:
+    further theorem-only files of the property (theorems about translated code that sit above the first file)"""
     s = Static()
     props_module = props_module or f"B3.Props.{pid}"
     tr = run_translator()
@@ -136,7 +137,15 @@ def static_check(pid, tier, deps_artefacts=None, props_module=None, props_path=N
     ns = re.search(r"^namespace\s+(\S+)", text, flags=re.M)
     prefix = (ns.group(1) + ".") if ns else ""
     s.theorems = [prefix + m.group(1) for m in re.finditer(r"^theorem\s+(\S+)", text, flags=re.M)]
-    rc, out = run(["lake", "build", props_module, "driver"], cwd=LEAN_DIR, timeout=3600)
+    modules = [props_module]
+    for mod, rel in extra_props:
+        modules.append(mod)
+        with open(os.path.join(LEAN_DIR, rel), encoding="utf-8") as f:
+            t2 = strip_lean_comments(f.read())
+        ns2 = re.search(r"^namespace\s+(\S+)", t2, flags=re.M)
+        pre2 = (ns2.group(1) + ".") if ns2 else ""
+        s.theorems += [pre2 + m.group(1) for m in re.finditer(r"^theorem\s+(\S+)", t2, flags=re.M)]
+    rc, out = run(["lake", "build"] + modules + ["driver"], cwd=LEAN_DIR, timeout=3600)
     s.build_log = out
     if rc != 0:
         s.build_ok = False
@@ -145,7 +154,8 @@ def static_check(pid, tier, deps_artefacts=None, props_module=None, props_path=N
         return s
     # axiom audit: a generated file that imports the theorem file and prints the axioms of every theorem
     with tempfile.NamedTemporaryFile("w", suffix=".lean", dir=LEAN_DIR, delete=False) as tf:
-        tf.write(f"import {props_module}\n")
+        for mod in modules:
+            tf.write(f"import {mod}\n")
         for t in s.theorems:
             tf.write(f"#print axioms {t}\n")
         tmp = tf.name
@@ -168,7 +178,7 @@ def static_check(pid, tier, deps_artefacts=None, props_module=None, props_path=N
         s.build_log += "\n" + out[-3000:]
     s.hygiene_hits = hygiene_scan()
     if tier == "thorough":
-        rc, out = run(["lake", "env", "leanchecker", props_module], cwd=LEAN_DIR, timeout=3600)
+        rc, out = run(["lake", "env", "leanchecker"] + modules, cwd=LEAN_DIR, timeout=3600)
         s.leanchecker = (rc == 0)
         if rc != 0:
             s.build_ok = False
